@@ -57,6 +57,37 @@ func placeItem(kind string) *bitem {
 	return nil
 }
 
+// longUnits: the unit a long document repeats (wrap: the units are the elements of ONE list).
+type lunit struct {
+	kind   string
+	text   string
+	wrap   bool
+	expect []*node
+}
+
+var longUnits = []lunit{
+	{"atom", "a\n", false, []*node{symN("a", 0)}},
+	{"int", "1 ", false, []*node{{k: kInt, i: 1}}},
+	{"negative-int", "-5 ", false, []*node{{k: kInt, i: -5}}},
+	{"string", "\"s\" ", false, []*node{{k: kStr, s: "s"}}},
+	{"call", "(f 1)\n", false, []*node{fillerNode}},
+	{"empty-list", "()\n", false, []*node{listN(0)}},
+	{"quoted-symbol", "'q\n", false, []*node{symN("q", 1)}},
+	{"funref", "#'fn\n", false, []*node{listN(0, symN("lisp:function", 0), symN("fn", 0))}},
+	{"comment-then-atom", ";c\na\n", false, []*node{symN("a", 0)}},
+	{"elements-of-one-list", "a ", true, []*node{symN("a", 0)}},
+	{"calls-in-one-list", "(f 1) ", true, []*node{fillerNode}},
+}
+
+func longUnit(kind string) *lunit {
+	for i := range longUnits {
+		if longUnits[i].kind == kind {
+			return &longUnits[i]
+		}
+	}
+	return nil
+}
+
 var overlongKinds = []string{"symbol", "comment", "whitespace", "string", "raw-string", "digits"}
 
 func overlongItem(kind string, n int) string {
@@ -103,6 +134,34 @@ func (c bcase) text() (text string, expect []*node, known bool) {
 		expect = append(expect, it.expect...)
 		expect = append(expect, tailNode)
 		return b.String(), expect, true
+	case "long":
+		// a document of Len units: no lexical item is long and nothing nests deeper than 2, only the NUMBER of
+		// expressions grows (counters that are kept per document and never given back)
+		u := longUnit(c.Kind)
+		if u == nil || c.Len < 1 {
+			return "", nil, false
+		}
+		var b strings.Builder
+		b.Grow(c.Len*len(u.text) + 16)
+		if u.wrap {
+			b.WriteString("(")
+		}
+		for i := 0; i < c.Len; i++ {
+			b.WriteString(u.text)
+		}
+		if u.wrap {
+			b.WriteString(")\n")
+			kids := make([]*node, 0, c.Len*len(u.expect))
+			for i := 0; i < c.Len; i++ {
+				kids = append(kids, u.expect...)
+			}
+			return b.String(), []*node{listN(0, kids...)}, true
+		}
+		expect = make([]*node, 0, c.Len*len(u.expect))
+		for i := 0; i < c.Len; i++ {
+			expect = append(expect, u.expect...)
+		}
+		return b.String(), expect, true
 	case "overlong":
 		if c.Len < 8 {
 			return "", nil, false
@@ -139,6 +198,17 @@ func checkBoundary(c bcase) (outcome string, f *fail) {
 		}
 		if ok, why := sameProgram(expect, ps.exprs); !ok {
 			return "tree-differs", &fail{"tree-differs", "two filler lists, the item, (z)", why}
+		}
+		if !sameReading(ss, ps) {
+			return "differs-from-string-scanner", &fail{"differs-from-string-scanner", "same tree as over token.NewScannerString", short(ss.String())}
+		}
+		return "accept", nil
+	case "long":
+		if !ps.ok {
+			return "reject", &fail{"rejected", "accepted: every item is a few bytes long and nothing nests deeper than two levels; only the number of expressions is large", short(ps.String())}
+		}
+		if ok, why := sameProgram(expect, ps.exprs); !ok {
+			return "tree-differs", &fail{"tree-differs", fmt.Sprintf("%d units", c.Len), short(why)}
 		}
 		if !sameReading(ss, ps) {
 			return "differs-from-string-scanner", &fail{"differs-from-string-scanner", "same tree as over token.NewScannerString", short(ss.String())}
